@@ -43,18 +43,19 @@ for f in "$SRC"/*_test.go "$SRC"/demo/*_test.go "$SRC"/*/*_test.go; do
   git apply /tmp/seed-$P-$K.applied.diff
   echo "demo $(basename $f) in $d [$tn]: with change=$demo_with without=$demo_without"
 done
-cd /verif
+VDIR=${VERIF_SNAP:-/verif}
+cd "$VDIR"
 git -C /repo worktree remove --force "$WT"
 # now the checks, against /repo itself
 if ! git -C /repo diff --quiet; then echo "/repo dirty"; exit 2; fi
 git -C /repo apply /tmp/seed-$P-$K.applied.diff || { res "applied diff does not apply to /repo"; exit 3; }
 for prop in $P "$@"; do
-  ./bin/vcheck run $prop --tier quick > /tmp/seedcheck.$prop.out 2>&1; rc=$?
+  VERIF_DIR="$VDIR" ./bin/vcheck run $prop --tier quick > /tmp/seedcheck.$prop.out 2>&1; rc=$?
   n=$(grep -c "^VIOLATION" /tmp/seedcheck.$prop.out)
   echo "check $prop: exit=$rc violations=$n"
   grep -A1 "^VIOLATION" /tmp/seedcheck.$prop.out | grep "clause=" | sed 's/.*clause=/    clause=/' | sort | uniq -c | head -5
   grep "^vcheck:" /tmp/seedcheck.$prop.out | head -3
 done
 git -C /repo checkout -- .
-git -C /verif checkout -- evidence 2>/dev/null
+[ "$VDIR" = /verif ] && git -C /verif checkout -- evidence 2>/dev/null
 res "baseline_ok=$base_ok demo_with=$demo_with demo_without=$demo_without"
